@@ -1144,6 +1144,9 @@ class PyFat(object):
             if num_sec <= sec:
                 sec_per_clus = spc
                 break
+        if sec_per_clus == 0:
+            raise PyFATException(f"Cannot create a FAT{fat_type} filesystem "
+                                 f"of {size} bytes.", errno=errno.EINVAL)
 
         boot_code = b"\x0e"           # push cs
         boot_code += b"\x1f"          # pop ds
@@ -1192,7 +1195,7 @@ class PyFat(object):
             math.ceil((tmp_val1 + tmp_val2 - 1) // tmp_val2 / sector_size)
         data_sectors = num_sec - (rsvd_sec_cnt + self.root_dir_sectors +
                                   number_of_fats * self._fat_size)
-        if sec_per_clus == 0 or data_sectors < sec_per_clus:
+        if data_sectors < sec_per_clus:
             raise PyFATException(f"Cannot create a FAT{fat_type} filesystem "
                                  f"of {size} bytes.", errno=errno.EINVAL)
 
